@@ -85,14 +85,46 @@ func (m SliceDotsMatcher) Match(got reflect.Value, d data.Data, r Region) (data.
 		return d, false
 	}
 
-	for i, section := range m.Sections[1:] {
-		idx, d, ok = findSection(m.Dots[i], section, gotItems, d, r, idx)
+	return m.matchSections(0, gotItems, d, r, idx)
+}
+
+// matchSections matches the sections that follow the i-th "..." against
+// got[idx:].
+//
+// Candidate positions for a section are tried from left to right, so every
+// "..." takes the shortest run that allows the rest of the list to match. If
+// the remaining sections cannot be matched after a candidate, the next
+// candidate is tried: foo(..., 42) matches foo(42, 42).
+//
+// Invariant: If ok is true, a list of skipped items will have been pushed to
+// Data for every "...".
+func (m SliceDotsMatcher) matchSections(i int, got []reflect.Value, d data.Data, r Region, idx int) (data.Data, bool) {
+	if i == len(m.Dots) {
+		// No sections left. The whole list must have been consumed.
+		return d, idx == len(got)
+	}
+
+	want := m.Sections[i+1]
+	start := idx
+	if len(want) == 0 && i == len(m.Dots)-1 {
+		// Special case: "..." at the end of the list. Skip everything
+		// that is left.
+		start = len(got)
+	}
+
+	for ; start+len(want) <= len(got); start++ {
+		sr := sectionRegion(got, r, idx, start)
+		newIdx, newD, ok := matchPrefix(want, got, pushSliceDotsSkipped(d, m.Dots[i], got[idx:start], sr), sr, start)
 		if !ok {
-			return d, false
+			continue
+		}
+
+		if resD, ok := m.matchSections(i+1, got, newD, r, newIdx); ok {
+			return resD, true
 		}
 	}
 
-	return d, idx == len(gotItems)
+	return d, false
 }
 
 // Returns Region for items[start:end].
@@ -126,32 +158,6 @@ func matchPrefix(want []Matcher, got []reflect.Value, d data.Data, r Region, idx
 	}
 
 	return idx + len(want), d, true
-}
-
-// findSection attempts to match want starting at got[idx], moving onto idx+1,
-// idx+2, and so on until a match is found. Returns the new index for the
-// remaining matches.
-//
-// Invariant: If ok is true, a list of skipped items will have been pushed to
-// Data.
-func findSection(dots token.Pos, want []Matcher, got []reflect.Value, d data.Data, r Region, idx int) (newIdx int, _ data.Data, ok bool) {
-	// Special case: Looking for "..." at the end of the list. Skip everything
-	// in got.
-	if len(want) == 0 {
-		r := sectionRegion(got, r, idx, len(got))
-		d := pushSliceDotsSkipped(d, dots, got[idx:], r)
-		return matchPrefix(want, got, d, r, len(got))
-	}
-
-	for i := idx; i < len(got); i++ {
-		r := sectionRegion(got, r, idx, i)
-		newIdx, newD, ok := matchPrefix(want, got, pushSliceDotsSkipped(d, dots, got[idx:i], r), r, i)
-		if ok {
-			return newIdx, newD, ok
-		}
-	}
-
-	return idx, d, false
 }
 
 // SliceDotsReplacer replaces target nodes and reproduces the values captured by
